@@ -1132,7 +1132,7 @@ class Expr:
             "dtype_index",
         }:
             return False
-        elif self.kind in {"complex", "conjugate"}:
+        elif self.kind == "complex":
             return True
         elif self.kind in {"add", "subtract", "divide", "multiply", "pow"}:
             return self.operands[0].is_complex or self.operands[1].is_complex
@@ -1141,6 +1141,7 @@ class Expr:
         elif self.kind in {
             "positive",
             "negative",
+            "conjugate",
             "sqrt",
             "square",
             "asin",
